@@ -388,6 +388,10 @@ func (n *Node[T]) Accept(ctx context.Context, block Block) (ExecutedBlock[T], er
 					break
 				}
 			}
+			// the fetched chunk was verified and appended by onResponse
+			continue
+		} else if err != nil {
+			return ExecutedBlock[T]{}, fmt.Errorf("failed to get chunk: %w", err)
 		}
 
 		chunk, err := ParseChunk[T](chunkBytes)
